@@ -659,6 +659,22 @@ func corruptVectors(c *mon.Ctx, s *slib, rng *gen.Rng, pl *pools) {
 				break
 			}
 		}
+		// SAFETY: the library's nested-vector decoder keeps parsing after an inner error (the finding recorded
+		// under nil-error-on-malformed) and then reads element bytes as a length prefix; with arbitrary elements
+		// that is a multi-gigabyte allocation which kills the process. The uncorrupted entries of the nested
+		// shapes are therefore kept below 16, so that a misread prefix stays tiny.
+		for _, r := range v.EE {
+			for j := range r {
+				r[j] = big.NewInt(int64(rng.Intn(16)))
+			}
+		}
+		for _, rr := range v.EEE {
+			for _, r := range rr {
+				for j := range r {
+					r[j] = big.NewInt(int64(rng.Intn(16)))
+				}
+			}
+		}
 		stream := s.gr.Encode(v, false)
 		// element offsets with their logical position
 		type pos struct {
